@@ -219,7 +219,7 @@ func cfgCases(cfg *hx.RunCfg, g *gen, dist map[string]int, add func(string, []ma
 					if r.Error != "" {
 						return fmt.Errorf("NewProxy from %s config refused: %s", fmtNames[format], r.Error)
 					}
-				case <-time.After(3 * time.Second):
+				case <-time.After(respWait):
 					return fmt.Errorf("no NewProxyResp")
 				}
 				wire := m.AllowUsers
@@ -249,7 +249,7 @@ func cfgCases(cfg *hx.RunCfg, g *gen, dist map[string]int, add func(string, []ma
 						}
 						_ = msg.WriteMsg(vc, &msg.NewVisitorConn{RunID: vs.p.RunID, ProxyName: m.ProxyName, SignKey: sign, Timestamp: ts})
 						var resp msg.NewVisitorConnResp
-						_ = vc.SetReadDeadline(time.Now().Add(3 * time.Second))
+						_ = vc.SetReadDeadline(time.Now().Add(respWait))
 						if err := msg.ReadMsgInto(vc, &resp); err != nil {
 							vc.Close()
 							return fmt.Errorf("no NewVisitorConnResp: %v", err)
@@ -298,7 +298,7 @@ type c08Helper struct {
 	addr string
 }
 
-func (h *c08Helper) ConnectServer() (net.Conn, error)             { return net.DialTimeout("tcp", h.addr, 2*time.Second) }
+func (h *c08Helper) ConnectServer() (net.Conn, error)             { return net.DialTimeout("tcp", h.addr, respWait) }
 func (h *c08Helper) TransferConn(string, net.Conn) error          { return fmt.Errorf("no fallback") }
 func (h *c08Helper) MsgTransporter() transport.MessageTransporter { return nil }
 func (h *c08Helper) VNetController() *vnet.Controller             { return nil }
@@ -337,7 +337,7 @@ func startRecBackend(addr, first string, n int, reply []byte) (*recBackend, erro
 					_, _ = io.WriteString(c, first)
 				}
 				buf := make([]byte, n)
-				_ = c.SetReadDeadline(time.Now().Add(8 * time.Second))
+				_ = c.SetReadDeadline(time.Now().Add(respWait))
 				m, _ := io.ReadFull(c, buf)
 				b.got <- buf[:m]
 				if m == n {
@@ -490,10 +490,10 @@ func xtcpCases(g *gen, dist map[string]int, add func(string, []map[string]string
 			proto = "quic"
 		}
 		sf := g.Chance(0.5)
-		runs = append(runs, xtcpRun{proto, ue, uc, ue, uc, sf, sf && !quic, mkPayload(), 8 * time.Second})
+		runs = append(runs, xtcpRun{proto, ue, uc, ue, uc, sf, sf && !quic, mkPayload(), respWait})
 	}
 	// one kcp stream per run with a speaking-first backend and a silent user, whatever the coin said above
-	runs = append(runs, xtcpRun{"kcp", g.Chance(0.5), false, false, false, true, true, mkPayload(), 8 * time.Second})
+	runs = append(runs, xtcpRun{"kcp", g.Chance(0.5), false, false, false, true, true, mkPayload(), respWait})
 	runs[len(runs)-1].pue, runs[len(runs)-1].puc = runs[len(runs)-1].vue, runs[len(runs)-1].vuc
 	// F-C08d: the clause speaks of whatever the two ends declare: different declarations, three pairs per run
 	for k := 0; k < 3; k++ {
@@ -663,11 +663,11 @@ func firstSTCP(ue, uc bool) (bool, error) {
 		if err != nil {
 			return false, fmt.Errorf("fake frps: %v", err)
 		}
-	case <-time.After(5 * time.Second):
+	case <-time.After(respWait):
 		return false, fmt.Errorf("fake frps: no visitor connection")
 	}
 	got := make([]byte, len(banner))
-	_ = userSide.SetReadDeadline(time.Now().Add(3 * time.Second))
+	_ = userSide.SetReadDeadline(time.Now().Add(respWait))
 	_, rerr := io.ReadFull(userSide, got)
 	return rerr == nil && string(got) == banner, nil
 }
@@ -718,11 +718,11 @@ func firstSUDP(ue, uc bool) (bool, error) {
 		if err != nil {
 			return false, fmt.Errorf("fake frps: %v", err)
 		}
-	case <-time.After(5 * time.Second):
+	case <-time.After(respWait):
 		return false, fmt.Errorf("fake frps: no sudp visitor connection")
 	}
 	buf := make([]byte, 2048)
-	_ = user.SetReadDeadline(time.Now().Add(3 * time.Second))
+	_ = user.SetReadDeadline(time.Now().Add(respWait))
 	n, _, rerr := user.ReadFromUDP(buf)
 	return rerr == nil && string(buf[:n]) == banner, nil
 }
